@@ -46,6 +46,7 @@ SAFE_METHODS = {
 }
 for _ty in (str, bytes, bytearray, tuple, frozenset, int, list, dict, set):
     SAFE_METHODS.setdefault(_ty, set()).update(n for n in dir(_ty) if not n.startswith("_"))
+    SAFE_METHODS[_ty].update({"__getitem__", "__contains__", "__len__"} & set(dir(_ty)))
 SAFE_TYPE_ATTRS = {bytes: {"fromhex"}, int: {"from_bytes"}, dict: {"fromkeys"}}
 SAFE_MODULES = {"base64", "re", "math", "string"}
 
@@ -231,6 +232,12 @@ class MiniEval:
                 return self.oracle(e, self)
             except Unknown:
                 pass
+            if self.resolver is not None:
+                target = self.resolver(e.id)
+                if target is not None:
+                    return lambda *a, **k: self.call_def(target, list(a), dict(k), {})  # a helper function used as a value
+            if e.id in _BUILTINS and e.id not in ("int", "str", "bytes", "bytearray", "list", "dict", "tuple", "set", "bool", "float", "type"):
+                return _BUILTINS[e.id]
             if e.id in ("int", "str", "bytes", "bytearray", "list", "dict", "tuple", "set", "bool", "float", "type"):
                 return {"int": int, "str": str, "bytes": bytes, "bytearray": bytearray, "list": list, "dict": dict, "tuple": tuple, "set": set, "bool": bool, "float": float, "type": type}[e.id]
             return self._ask(e)
@@ -913,6 +920,10 @@ def run_function(fnode: ast.AST, args: Dict[str, Any], oracle: Callable, where: 
             me.env[n] = me.ev(defaults[n])
         else:
             raise AnalysisError(f"{where}: parameter `{n}` has no abstract value")
+    if a.vararg is not None:
+        me.env[a.vararg.arg] = tuple(args.get(a.vararg.arg, ()))
+    if a.kwarg is not None:
+        me.env[a.kwarg.arg] = dict(args.get(a.kwarg.arg, {}))
     try:
         me.run(fnode.body)
     except _Return as r:
